@@ -587,7 +587,9 @@ REQUIRED = {
         'lay_o=none', 'blas&lay_s=gaps', 'blas&lay_s=perm', 'blas&lay_o=gaps', 'blas&lay_o=perm', 'noblas&lay_s=gaps,noblas&lay_s=perm',
         'noblas&lay_o=gaps,noblas&lay_o=perm', 'qs_s=0', 'qs_s=1', 'qs_o=0', 'qs_o=1', 'nblk_s=0', 'nblk_s=1', 'nblk_s=2+', 'nblk_o=0', 'nblk_o=1',
         'nblk_o=2+', 'alias=none', 'alias=same-object', 'alias=same-buffers', 'blas&alias=same-object', 'blas&alias=same-buffers',
-        'noblas&alias=same-object', 'noblas&alias=same-buffers', 'pval=1&alias=same-object', 'pval=-1&alias=same-object', 'pval=complex&alias=same-object,pval=imag&alias=same-object',
+        'noblas&alias=same-object', 'noblas&alias=same-buffers', 'fast-path&same-pointer&daxpy', 'fast-path&same-pointer&zaxpy-complex-prefactor',
+        # (compiled only: the Python twin never writes into existing buffers, so after `a += c` nothing is shared any more)
+        'cy:general-path&same-pointer&daxpy', 'cy:general-path&same-pointer&zaxpy-complex-prefactor', 'pval=1&alias=same-object', 'pval=-1&alias=same-object', 'pval=complex&alias=same-object,pval=imag&alias=same-object',
         'merge=identical-tables', 'merge=general', 'merge=both-empty', 'merge:both', 'merge:a-only', 'merge:b-only', 'merge:a-empty', 'merge:b-empty',
         'pval=1&merge:b-only', 'pval=-1&merge:b-only', 'pval=0&calc=c16,pval=0&calc=c8', 'pval=0&calc=i8,pval=0&calc=f8,pval=0&calc=f4',
         'pval=1&calc=i8', 'pval=real&calc=i8,pval=-1&calc=i8', 'cast=none', 'cast=self', 'cast=other', 'cast=both',
@@ -637,6 +639,10 @@ def eval_required(tags, cfg):
         d = tags.get(pair, {})
         row = table.setdefault(pair, {})
         for g in groups:
+            if g[:3] in ('cy:', 'py:'):                 # a class that can occur in one configuration only
+                if g[:2] != cfg:
+                    continue
+                g = g[3:]
             per = {}
             for t in g.split(','):
                 for st, k in (d.get(t) or {}).items():
